@@ -88,200 +88,252 @@ func runC14(tier, replay string) {
 	if err != nil {
 		run.Infra(err)
 	}
-	fset, base := sharedImporter()
-	_ = fset
+	_, base := sharedImporter()
 	var errs []string
-	pkg := gogen.NewPackage("", "p", &gogen.Config{Fset: token.NewFileSet(), Importer: uImporter{w.Pkg, base}, HandleErr: func(e error) { errs = append(errs, e.Error()) }})
-	cb := pkg.CB()
-	ti := types.Typ[types.Int]
-	terr := types.Universe.Lookup("error").Type()
-	pkg.NewVar(token.NoPos, terr, "gerr")
-	pkg.Import("u") // lets the builder discover the fixture's implicit-conversion function Big_Init__0
-	bigT := w.Pkg.Scope().Lookup("Big").Type()
-	type obs struct {
-		reported  string // "" ok
-		buildFail map[string]string
-	}
-	observed := make([]obs, len(vs))
-	for i, v := range vs {
-		T := w.Type(v.T)
-		o := obs{buildFail: map[string]string{}}
-		try := func(user string, f func()) {
-			defer func() {
-				if e := recover(); e != nil {
-					o.buildFail[user] = fmt.Sprint(e)
-					// leave the function body if one is open
-					func() {
-						defer func() { recover() }()
-						cb.ResetStmt()
-						if cb.Func() != nil {
-							cb.End()
-						}
-					}()
+	var cases int64
+	var lastOut string
+	// one world = one package built with the real builder for one realisation of the universe's types:
+	//   direct   the types as they are
+	//   alias    every type through an alias declared in the package (type A = T), alias2: an alias of that alias
+	//   delayed  named types whose underlying type is unknown until Config.LoadNamed completes them, with the zero value as
+	//            their first use (one fresh type object per user)
+	runWorld := func(real string) {
+		lazy := real == "delayed"
+		loaders := map[*types.Named]func(){}
+		pkg := gogen.NewPackage("", "p", &gogen.Config{Fset: token.NewFileSet(), Importer: uImporter{w.Pkg, base}, HandleErr: func(e error) { errs = append(errs, e.Error()) },
+			LoadNamed: func(at *gogen.Package, t *types.Named) {
+				if f := loaders[t]; f != nil {
+					delete(loaders, t)
+					f()
 				}
-			}()
-			f()
+			}})
+		// realise returns the type object a user works with, or nil if the realisation does not apply to the type
+		realise := func(i int, user string, T types.Type) types.Type {
+			switch real {
+			case "alias":
+				return pkg.AliasType(fmt.Sprintf("Al%d%s", i, strings.NewReplacer("(", "", ")", "", "-", "").Replace(user)), T)
+			case "alias2":
+				n := fmt.Sprintf("Al%d%s", i, strings.NewReplacer("(", "", ")", "", "-", "").Replace(user))
+				return pkg.AliasType(n+"b", pkg.AliasType(n+"a", T))
+			case "delayed":
+				nt, ok := T.(*types.Named)
+				if !ok || nt.Obj().Pkg() == nil {
+					return nil
+				}
+				tn := types.NewTypeName(token.NoPos, nt.Obj().Pkg(), nt.Obj().Name(), nil)
+				d := types.NewNamed(tn, nil, nil)
+				loaders[d] = func() { d.SetUnderlying(nt.Underlying()) }
+				return d
+			}
+			return T
 		}
-		// history before the users: the zero value of T goes through operand-rewriting matchers once
-		// (implicit conversion int -> Big, the ~[]T builtin append); later zero values must be unaffected
-		try("pre", func() {
-			if b, ok := T.(*types.Basic); ok && b.Kind() == types.Int {
-				pkg.NewFunc(nil, fmt.Sprintf("pre%d", i), nil, nil, false).BodyStart(pkg)
-				cb.NewVarStart(bigT, "b").ZeroLit(T).EndInit(1)
-				cb.End()
-			}
-			if sl, ok := T.Underlying().(*types.Slice); ok && types.Identical(sl.Elem(), ti) {
-				pkg.NewFunc(nil, fmt.Sprintf("pre%d", i), nil, nil, false).BodyStart(pkg)
-				cb.Val(pkg.Builtin().Ref("append")).ZeroLit(T).Val(1).Call(2).EndStmt()
-				cb.End()
-			}
-		})
-		delete(o.buildFail, "pre")
-		// direct: x := zero ; var y T = zero
-		try("ZeroLit", func() {
-			pkg.NewFunc(nil, fmt.Sprintf("z%d", i), nil, nil, false).BodyStart(pkg)
-			cb.DefineVarStart(token.NoPos, "x").ZeroLit(T)
-			if rt := cb.Get(-1).Type; !types.Identical(rt, T) {
-				o.reported = fmt.Sprintf("ZeroLit(%v) reports type %v", T, rt)
-			}
-			cb.EndInit(1)
-			cb.NewVarStart(T, "y").ZeroLit(T).EndInit(1)
-			cb.End()
-		})
-		// T() : zero-argument conversion, inferred
-		try("T()", func() {
-			pkg.NewFunc(nil, fmt.Sprintf("c%d", i), nil, nil, false).BodyStart(pkg)
-			cb.DefineVarStart(token.NoPos, "x").Typ(T).Call(0)
-			if rt := cb.Get(-1).Type; !types.Identical(rt, T) {
-				o.reported = fmt.Sprintf("T() reports type %v for %v", rt, T)
-			}
-			cb.EndInit(1)
-			cb.End()
-		})
-		// ReturnErr padding: func r() (T, error) { return <zero>, gerr }
-		try("ReturnErr", func() {
-			res := types.NewTuple(types.NewParam(token.NoPos, pkg.Types, "", T), types.NewParam(token.NoPos, pkg.Types, "", terr))
-			pkg.NewFunc(nil, fmt.Sprintf("r%d", i), nil, res, false).BodyStart(pkg)
-			cb.Val(pkg.Types.Scope().Lookup("gerr")).ReturnErr(false)
-			cb.End()
-		})
-		// ReturnErr(true) inside an inline closure called from a func literal whose results differ from the
-		// enclosing named function's: the padding must be the zero value of the *literal's* result type
-		try("ReturnErr-outer", func() {
-			res := types.NewTuple(types.NewParam(token.NoPos, pkg.Types, "", types.Typ[types.String]), types.NewParam(token.NoPos, pkg.Types, "", terr))
-			pkg.NewFunc(nil, fmt.Sprintf("q%d", i), nil, res, false).BodyStart(pkg)
-			lres := types.NewTuple(types.NewParam(token.NoPos, pkg.Types, "", T), types.NewParam(token.NoPos, pkg.Types, "", terr))
-			cb.DefineVarStart(token.NoPos, "f")
-			cb.NewClosure(nil, lres, false).BodyStart(pkg)
-			cb.CallInlineClosureStart(types.NewSignatureType(nil, nil, nil, nil, nil, false), 0, false)
-			cb.Val(pkg.Types.Scope().Lookup("gerr")).ReturnErr(true)
-			cb.End() // inline closure
-			cb.Val(pkg.Types.Scope().Lookup("gerr")).ReturnErr(false)
-			cb.End() // func literal
-			cb.EndInit(1)
-			cb.Val(pkg.Types.Scope().Lookup("gerr")).ReturnErr(false)
-			cb.End()
-		})
-		// omitted optional argument: func o(a int, b T) {} ; o(1)
-		try("optional-argument", func() {
-			ps := types.NewTuple(pkg.NewParam(token.NoPos, "a", ti, false), pkg.NewParam(token.NoPos, "b", T, true))
-			fn := pkg.NewFunc(nil, fmt.Sprintf("o%d", i), ps, nil, false)
-			fn.BodyStart(pkg).End()
-			pkg.NewFunc(nil, fmt.Sprintf("k%d", i), nil, nil, false).BodyStart(pkg)
-			cb.Val(fn.Func).Val(1).Call(1).EndStmt()
-			cb.End()
-		})
-		observed[i] = o
-	}
-	var buf bytes.Buffer
-	if err := gogen.WriteTo(&buf, pkg, ""); err != nil {
-		run.Infra(fmt.Errorf("WriteTo: %v", err))
-	}
-	tfset := token.NewFileSet()
-	pf, perr := parser.ParseFile(tfset, "z.go", buf.Bytes(), 0)
-	if perr != nil {
-		run.Fail("output-does-not-parse", perr.Error(), nil)
-		run.Set("states", res.Distinct)
-		run.Set("transitions", res.Generated)
-		run.Set("traces_validated_against_impl", 0)
-		run.Finish()
-	}
-	// errors by enclosing function
-	funcAt := func(pos token.Pos) string {
-		for _, d := range pf.Decls {
-			if fd, ok := d.(*ast.FuncDecl); ok && fd.Pos() <= pos && pos <= fd.End() {
-				return fd.Name.Name
-			}
+		_ = lazy
+		cb := pkg.CB()
+		ti := types.Typ[types.Int]
+		terr := types.Universe.Lookup("error").Type()
+		pkg.NewVar(token.NoPos, terr, "gerr")
+		pkg.Import("u") // lets the builder discover the fixture's implicit-conversion function Big_Init__0
+		bigT := w.Pkg.Scope().Lookup("Big").Type()
+		type obs struct {
+			reported  string // "" ok
+			buildFail map[string]string
+			skip      bool
 		}
-		return ""
-	}
-	ferrs := map[string][]string{}
-	info := &types.Info{Defs: map[*ast.Ident]types.Object{}}
-	conf := types.Config{Importer: uImporter{w.Pkg, base}, Error: func(e error) {
-		te, ok := e.(types.Error)
-		if !ok || strings.Contains(te.Msg, "declared and not used") {
+		observed := make([]obs, len(vs))
+		for i, v := range vs {
+			T0 := w.Type(v.T)
+			T := T0
+			if realise(i, "probe", T0) == nil {
+				observed[i] = obs{skip: true}
+				continue
+			}
+			o := obs{buildFail: map[string]string{}}
+			try := func(user string, f func()) {
+				if user != "pre" {
+					T = realise(i, user, T0)
+				}
+				defer func() {
+					if e := recover(); e != nil {
+						o.buildFail[user] = fmt.Sprint(e)
+						// leave the function body if one is open
+						func() {
+							defer func() { recover() }()
+							cb.ResetStmt()
+							if cb.Func() != nil {
+								cb.End()
+							}
+						}()
+					}
+				}()
+				f()
+			}
+			// history before the users: the zero value of T goes through operand-rewriting matchers once
+			// (implicit conversion int -> Big, the ~[]T builtin append); later zero values must be unaffected
+			try("pre", func() {
+				if b, ok := T.(*types.Basic); ok && b.Kind() == types.Int {
+					pkg.NewFunc(nil, fmt.Sprintf("pre%d", i), nil, nil, false).BodyStart(pkg)
+					cb.NewVarStart(bigT, "b").ZeroLit(T).EndInit(1)
+					cb.End()
+				}
+				if sl, ok := T.Underlying().(*types.Slice); ok && types.Identical(sl.Elem(), ti) {
+					pkg.NewFunc(nil, fmt.Sprintf("pre%d", i), nil, nil, false).BodyStart(pkg)
+					cb.Val(pkg.Builtin().Ref("append")).ZeroLit(T).Val(1).Call(2).EndStmt()
+					cb.End()
+				}
+			})
+			delete(o.buildFail, "pre")
+			// direct: x := zero ; var y T = zero
+			try("ZeroLit", func() {
+				pkg.NewFunc(nil, fmt.Sprintf("z%d", i), nil, nil, false).BodyStart(pkg)
+				cb.DefineVarStart(token.NoPos, "x").ZeroLit(T)
+				if rt := cb.Get(-1).Type; !types.Identical(rt, T) {
+					o.reported = fmt.Sprintf("ZeroLit(%v) reports type %v", T, rt)
+				}
+				cb.EndInit(1)
+				cb.NewVarStart(T, "y").ZeroLit(T).EndInit(1)
+				cb.End()
+			})
+			// T() : zero-argument conversion, inferred
+			try("T()", func() {
+				pkg.NewFunc(nil, fmt.Sprintf("c%d", i), nil, nil, false).BodyStart(pkg)
+				cb.DefineVarStart(token.NoPos, "x").Typ(T).Call(0)
+				if rt := cb.Get(-1).Type; !types.Identical(rt, T) {
+					o.reported = fmt.Sprintf("T() reports type %v for %v", rt, T)
+				}
+				cb.EndInit(1)
+				cb.End()
+			})
+			// ReturnErr padding: func r() (T, error) { return <zero>, gerr }
+			try("ReturnErr", func() {
+				res := types.NewTuple(types.NewParam(token.NoPos, pkg.Types, "", T), types.NewParam(token.NoPos, pkg.Types, "", terr))
+				pkg.NewFunc(nil, fmt.Sprintf("r%d", i), nil, res, false).BodyStart(pkg)
+				cb.Val(pkg.Types.Scope().Lookup("gerr")).ReturnErr(false)
+				cb.End()
+			})
+			// ReturnErr(true) inside an inline closure called from a func literal whose results differ from the
+			// enclosing named function's: the padding must be the zero value of the *literal's* result type
+			try("ReturnErr-outer", func() {
+				res := types.NewTuple(types.NewParam(token.NoPos, pkg.Types, "", types.Typ[types.String]), types.NewParam(token.NoPos, pkg.Types, "", terr))
+				pkg.NewFunc(nil, fmt.Sprintf("q%d", i), nil, res, false).BodyStart(pkg)
+				lres := types.NewTuple(types.NewParam(token.NoPos, pkg.Types, "", T), types.NewParam(token.NoPos, pkg.Types, "", terr))
+				cb.DefineVarStart(token.NoPos, "f")
+				cb.NewClosure(nil, lres, false).BodyStart(pkg)
+				cb.CallInlineClosureStart(types.NewSignatureType(nil, nil, nil, nil, nil, false), 0, false)
+				cb.Val(pkg.Types.Scope().Lookup("gerr")).ReturnErr(true)
+				cb.End() // inline closure
+				cb.Val(pkg.Types.Scope().Lookup("gerr")).ReturnErr(false)
+				cb.End() // func literal
+				cb.EndInit(1)
+				cb.Val(pkg.Types.Scope().Lookup("gerr")).ReturnErr(false)
+				cb.End()
+			})
+			// omitted optional argument: func o(a int, b T) {} ; o(1)
+			try("optional-argument", func() {
+				ps := types.NewTuple(pkg.NewParam(token.NoPos, "a", ti, false), pkg.NewParam(token.NoPos, "b", T, true))
+				fn := pkg.NewFunc(nil, fmt.Sprintf("o%d", i), ps, nil, false)
+				fn.BodyStart(pkg).End()
+				pkg.NewFunc(nil, fmt.Sprintf("k%d", i), nil, nil, false).BodyStart(pkg)
+				cb.Val(fn.Func).Val(1).Call(1).EndStmt()
+				cb.End()
+			})
+			observed[i] = o
+		}
+		var buf bytes.Buffer
+		if err := gogen.WriteTo(&buf, pkg, ""); err != nil {
+			run.Infra(fmt.Errorf("WriteTo: %v", err))
+		}
+		lastOut = buf.String()
+		tfset := token.NewFileSet()
+		pf, perr := parser.ParseFile(tfset, "z.go", buf.Bytes(), 0)
+		if perr != nil {
+			run.Fail("output-does-not-parse", perr.Error(), nil)
 			return
 		}
-		fn := funcAt(te.Pos)
-		ferrs[fn] = append(ferrs[fn], te.Msg)
-	}}
-	conf.Check("p", tfset, []*ast.File{pf}, info)
-	inferred := map[string]types.Type{} // "z3/x" -> type
-	for id, ob := range info.Defs {
-		if ob == nil {
-			continue
+		// errors by enclosing function
+		funcAt := func(pos token.Pos) string {
+			for _, d := range pf.Decls {
+				if fd, ok := d.(*ast.FuncDecl); ok && fd.Pos() <= pos && pos <= fd.End() {
+					return fd.Name.Name
+				}
+			}
+			return ""
 		}
-		if v, ok := ob.(*types.Var); ok && (id.Name == "x") {
-			inferred[funcAt(id.Pos())+"/x"] = v.Type()
+		ferrs := map[string][]string{}
+		info := &types.Info{Defs: map[*ast.Ident]types.Object{}}
+		conf := types.Config{Importer: uImporter{w.Pkg, base}, Error: func(e error) {
+			te, ok := e.(types.Error)
+			if !ok || strings.Contains(te.Msg, "declared and not used") {
+				return
+			}
+			fn := funcAt(te.Pos)
+			ferrs[fn] = append(ferrs[fn], te.Msg)
+		}}
+		conf.Check("p", tfset, []*ast.File{pf}, info)
+		inferred := map[string]types.Type{} // "z3/x" -> type
+		for id, ob := range info.Defs {
+			if ob == nil {
+				continue
+			}
+			if v, ok := ob.(*types.Var); ok && (id.Name == "x") {
+				inferred[funcAt(id.Pos())+"/x"] = v.Type()
+			}
+		}
+		for i, v := range vs {
+			T := w.Type(v.T)
+			o := observed[i]
+			if o.skip {
+				continue
+			}
+			cls := typeClass(v.T)
+			if real != "direct" {
+				cls += "@" + real
+			}
+			if o.reported != "" {
+				run.Fail("reported-type/"+cls, o.reported, map[string]any{"type": v.T.Src()})
+			}
+			check := func(user, fn string, inferredCtx bool) {
+				cases++
+				run.Eval(user + "/" + v.T.Src() + "@" + real)
+				if f, ok := o.buildFail[user]; ok {
+					run.Fail("builder-failed/"+user+"/"+cls, fmt.Sprintf("%s for %s: %s", user, v.T.Src(), f), map[string]any{"type": v.T.Src()})
+					return
+				}
+				deviates, what := false, ""
+				if es := ferrs[fn]; len(es) > 0 {
+					deviates, what = true, "go/types rejects the emitted zero value: "+es[0]
+				} else if inferredCtx {
+					got := inferred[fn+"/x"]
+					if got == nil || !sameTypeLoose(T, got) {
+						deviates, what = true, fmt.Sprintf("x := <zero of %s> has type %v in the emitted code", v.T.Src(), got)
+					}
+				}
+				if !deviates {
+					return
+				}
+				// is this the deviation Zero.tla predicts from the implementation's choice of form?
+				key := fmt.Sprintf("%s/%s", user, cls)
+				if inferredCtx && !v.ImplInferredOK {
+					got := inferred[fn+"/x"]
+					pred := v.ImplInferredType
+					if (pred.K == "untyped" && pred.N == "nil" && len(ferrs[fn]) > 0) || (got != nil && pred.K != "untyped" && sameTypeLoose(w.Type(pred), got)) {
+						key = "root-cause/untyped-zero-form"
+					}
+				}
+				run.Fail(key, fmt.Sprintf("%s of %s: %s", user, v.T.Src(), what), map[string]any{"type": v.T.Src(), "user": user})
+			}
+			check("ZeroLit", fmt.Sprintf("z%d", i), true)
+			check("T()", fmt.Sprintf("c%d", i), true)
+			check("ReturnErr", fmt.Sprintf("r%d", i), false)
+			check("optional-argument", fmt.Sprintf("k%d", i), false)
+			check("ReturnErr-outer", fmt.Sprintf("q%d", i), false)
 		}
 	}
-	var cases int64
-	for i, v := range vs {
-		T := w.Type(v.T)
-		o := observed[i]
-		cls := typeClass(v.T)
-		if o.reported != "" {
-			run.Fail("reported-type/"+cls, o.reported, map[string]any{"type": v.T.Src()})
-		}
-		check := func(user, fn string, inferredCtx bool) {
-			cases++
-			run.Eval(user + "/" + v.T.Src())
-			if f, ok := o.buildFail[user]; ok {
-				run.Fail("builder-failed/"+user+"/"+cls, fmt.Sprintf("%s for %s: %s", user, v.T.Src(), f), map[string]any{"type": v.T.Src()})
-				return
-			}
-			deviates, what := false, ""
-			if es := ferrs[fn]; len(es) > 0 {
-				deviates, what = true, "go/types rejects the emitted zero value: "+es[0]
-			} else if inferredCtx {
-				got := inferred[fn+"/x"]
-				if got == nil || !sameTypeLoose(T, got) {
-					deviates, what = true, fmt.Sprintf("x := <zero of %s> has type %v in the emitted code", v.T.Src(), got)
-				}
-			}
-			if !deviates {
-				return
-			}
-			// is this the deviation Zero.tla predicts from the implementation's choice of form?
-			key := fmt.Sprintf("%s/%s", user, cls)
-			if inferredCtx && !v.ImplInferredOK {
-				got := inferred[fn+"/x"]
-				pred := v.ImplInferredType
-				if (pred.K == "untyped" && pred.N == "nil" && len(ferrs[fn]) > 0) || (got != nil && pred.K != "untyped" && sameTypeLoose(w.Type(pred), got)) {
-					key = "root-cause/untyped-zero-form"
-				}
-			}
-			run.Fail(key, fmt.Sprintf("%s of %s: %s", user, v.T.Src(), what), map[string]any{"type": v.T.Src(), "user": user})
-		}
-		check("ZeroLit", fmt.Sprintf("z%d", i), true)
-		check("T()", fmt.Sprintf("c%d", i), true)
-		check("ReturnErr", fmt.Sprintf("r%d", i), false)
-		check("optional-argument", fmt.Sprintf("k%d", i), false)
-		check("ReturnErr-outer", fmt.Sprintf("q%d", i), false)
+	for _, real := range []string{"direct", "alias", "alias2", "delayed"} {
+		runWorld(real)
 	}
 	if len(vs) > 10 {
 		run.Sample(map[string]any{"type": vs[7].T.Src(), "implementation_form": vs[7].Impl, "demanded_forms": vs[7].Demanded, "model_predicts_inferred_ok": vs[7].ImplInferredOK})
-		run.Sample(map[string]any{"emitted_package_excerpt": firstLines(buf.String(), 25)})
+		run.Sample(map[string]any{"emitted_package_excerpt": firstLines(lastOut, 25)})
 	}
 	run.Set("states", res.Distinct)
 	run.Set("transitions", res.Generated)
